@@ -183,12 +183,16 @@ fn sweep_points(polls: usize, tier: Tier) -> Vec<usize> {
     v
 }
 
-fn sweep_case(case: u64, seed: u64, tier: Tier, out: &mut dyn Write) -> Result<(), String> {
+fn sweep_case(case: u64, k: u64, seed: u64, tier: Tier, out: &mut dyn Write) -> Result<(), String> {
     let mapsize = DEFAULT_MAPSIZE;
     let env = CaseEnv::new(mapsize)?;
     header(out, case, seed, mapsize);
-    let mut m = Mini::new(seed, case / 2);
-    let incremental = case % 2 == 1;
+    let mut m = Mini::new(seed, k);
+    // flavours in turn: first build, incremental, shrink
+    let incremental = k % 3 != 0;
+    // every third incremental case is a pure SHRINK: a built forest of 5-9 trees, no pending update, a rebuild that asks
+    // for 1-3 trees (the polls of the tree removal are then the only ones between the scans and the metadata)
+    let shrink = k % 3 == 2;
     let big = tier == Tier::Thorough && case % 5 == 4;
     {
         let mut ex = Executor::new(&env, out);
@@ -200,7 +204,25 @@ fn sweep_case(case: u64, seed: u64, tier: Tier, out: &mut dyn Write) -> Result<(
             m.w.dims
         )));
         let t: Vec<Op>;
-        if incremental {
+        let mut shrink_opts: Option<BuildOpts> = None;
+        if shrink {
+            let n0 = m.r.urange(30, 120);
+            let ops = m.adds(n0);
+            let mut first = m.build_opts();
+            first.ntrees = Some(m.r.urange(5, 9));
+            first.split = Some(m.r.urange(1, 4));
+            let ok = ex.exec(&Op::Begin) != Outcome::Panic
+                && run_ops(&mut ex, &ops)
+                && ex.exec(&Op::Build(m.w, first.clone())) != Outcome::Panic
+                && ex.exec(&Op::Dump) != Outcome::Panic
+                && ex.exec(&Op::Commit) != Outcome::Panic
+                && ex.exec(&Op::Dump) != Outcome::Panic;
+            if !ok {
+                return Ok(());
+            }
+            shrink_opts = Some(BuildOpts { ntrees: Some(m.r.urange(1, 3)), seed: m.r.next_u64(), ..first });
+            t = Vec::new();
+        } else if incremental {
             let n0 = if big { m.r.urange(300, 800) } else { m.r.urange(30, 120) };
             if !setup(&mut ex, &mut m, n0) {
                 return Ok(());
@@ -215,7 +237,7 @@ fn sweep_case(case: u64, seed: u64, tier: Tier, out: &mut dyn Write) -> Result<(
             let n = if big { m.r.urange(300, 800) } else { m.r.urange(25, 110) };
             t = m.adds(n);
         }
-        let opts = m.build_opts();
+        let opts = shrink_opts.unwrap_or_else(|| m.build_opts());
         // the complete build
         go!(ex, Op::Begin);
         if !run_ops(&mut ex, &t) {
@@ -684,7 +706,7 @@ pub fn run(o: &FaultOpts, out: &mut dyn Write) -> Result<u64, String> {
     if all || o.part == "sweep" {
         let n = o.cases.unwrap_or(if quick { 6 } else { 60 });
         for k in 0..n {
-            sweep_case(case, case_seed(o.seed ^ 0x7377_6565_70, k), o.tier, out)?;
+            sweep_case(case, k, case_seed(o.seed ^ 0x7377_6565_70, k), o.tier, out)?;
             let _ = writeln!(out, "endcase");
             case += 1;
         }
